@@ -47,6 +47,12 @@ CHECKS = {
         "Lifecycle scripts (add/overwrite/remove/disable/enable/reload/clear/location disable) interleaved with events, with and without a parent, both states; dispatch compared with the specification "
         "'stored, unexpired, non-scheduled, not disabled, when matches'.",
    note=NOTE_LOC, technique="Lean 4 proof over a hand-written model + guard table regenerated from the Go source + differential correspondence check", ref="5 (C10)"),
+ "C11": dict(
+   text="Lean 4 theorems (Props/C11.lean): noninterference of clients that own different locations from an explicit frame hypothesis, instantiated and proved for the System model (any number of clients, all schedules); atomic storage creation gives a single "
+        "storage; negative theorem for the real two-step ensureStorage; decide over the regenerated table of package-level variables written outside init. Tied to the code by concurrent differential runs (2-16 goroutines each owning a location, through sys.System "
+        "and httptest, each compared with its own sequence run alone and with the Lean model) and by the race detector.",
+   note="Partial: the data-race, crash and deadlock clauses are runtime observations; Frame is proved at request granularity for the System model, atomic-step granularity is validated dynamically. Trusted: extract_c11, Go race detector and runtime.",
+   technique="Lean 4 proof (schedule induction from a frame hypothesis) + global-write table regenerated from the Go source + concurrent differential runs under the race detector", ref="5 (C11)"),
  "C12": dict(
    text="Lean 4 theorems (Props/C12.lean, 11): sections of one reader/writer lock are atomic for all programs keeping the discipline, all thread counts and schedules; the lock-discipline table regenerated from core/state_*.go and core/events.go "
         "keeps the discipline except the enumerated known sites (kernel-decided); the fragment avoiding them is linearizable on memory; memory = storage for single-writer ids; a witness schedule per exception class. "
@@ -60,6 +66,13 @@ CHECKS = {
         "(and the negative theorems for the protocol as originally coded). Tied to the code by a differential run of generated scripts x timeout settings x {RunJavascript, condition, action} with a wall-clock oracle.",
    note="Partial. Trusted: otto semantics and its statement-boundary polling of Interrupt, Go scheduler/channels/timers as modelled, wall-clock tolerances (300 ms, 3 re-runs before a timing verdict). A script blocked in a native call is stopped at its next boundary, not at the limit. The model is hand-written, not extracted.",
    technique="Lean 4 proof over a hand-written transition-system model + differential correspondence check with timing oracle", ref="5 (C14)"),
+ "C17": dict(
+   text="Lean 4 theorems (Props/C17.lean) over an executable model of CachedLocations (Open/Get/Release/expire, Pending, !cacheTTL, CheckExistence): results through the System equal direct operation for every cache configuration, history and clock "
+        "(given reload faithfulness, the C06 statement, as explicit hypothesis); TTL independence; no creation under existence checking; single load for all schedules without the Open window, with negative theorems (decide witnesses) for the window, the boolean Pending, "
+        "marker erasure and the unchecked open. Tied to the code by twin Systems under TTL never/1ms/forever x CheckExistence x indexed/linear on the same histories (results, per-request load counts, cache membership), protocol-level interleavings with instance identity, "
+        "and schedules forced through ctx.LogHook.",
+   note="Partial: single-load is proved for window-free schedules only; four negative theorems are replayed on the code as known findings. ReloadOK (C06) is an explicit hypothesis; clock brackets are reconstructed for TTL 1 ms.",
+   technique="Lean 4 proof over an executable cache model (simulation proof, schedule induction with N unbounded, decide witnesses) + twin-configuration differential testing + LogHook-forced schedules", ref="5 (C17)"),
  "C18": dict(
    text="Lean 4 theorems (Props/C18.lean, 20, audited) about DWIMURI (idempotence, prefix/version/query insensitivity for all strings), parameter typing, equality of the System call across six encodings under decoder contracts, "
         "and error-on-missing/ill-typed/unknown-URI for every row of the dispatch table regenerated from service.go on each run; tied to the code by that regeneration, by decide-theorems over the regenerated table and by a "
